@@ -404,6 +404,9 @@ void World::restore(const Image& img)
                                      SQLITE_DESERIALIZE_FREEONCLOSE | SQLITE_DESERIALIZE_RESIZEABLE);
         if (rc != SQLITE_OK) throw std::runtime_error("sqlite3_deserialize failed for " + part.first + ": " + sqlite3_errmsg(handle));
     }
+    // Touch every schema once: the first statement after sqlite3_deserialize must be one that (re)loads the schema explicitly;
+    // a statement that names a table directly was seen to fail with "no such table" on a freshly deserialized connection.
+    for (auto& part : img.parts) (void)query("SELECT count(*) FROM " + part.first + ".sqlite_master");
     while (tracks.size() > img.n_tracks) tracks.pop_back();
     while (crates.size() > img.n_crates) crates.pop_back();
 }
